@@ -299,7 +299,7 @@ inline std::string keyify(const std::string& t, size_t maxlen = 110) {
     return r;
 }
 
-inline std::string exc_key(const std::string& end) {      // "EXC ns::type: message" -> "type:message" usable in keys
+inline std::string exc_key(const std::string& end) {      // "EXC ns::type: message" -> "type:message" (numbers -> N)
     std::string t = end.compare(0, 4, "EXC ") == 0 ? end.substr(4) : end;
     size_t colon = t.find(": ");
     std::string type = t.substr(0, colon), msg = colon == std::string::npos ? "" : t.substr(colon + 2);
@@ -308,19 +308,24 @@ inline std::string exc_key(const std::string& end) {      // "EXC ns::type: mess
     return keyify(type + ":" + msg);
 }
 
-// what differs between the unsplit baseline and a split run, as a class-key fragment; with_text adds the
-// (number-free) exception texts
-inline std::string diff_kind(const Result& base, const Result& r, bool with_text = true) {
-    if (base.ok() && !r.ok()) return "accepted-whole-rejected-in-pieces" + (with_text ? "[" + exc_key(r.end) + "]" : std::string());
-    if (!base.ok() && r.ok()) return "rejected-whole" + (with_text ? "[" + exc_key(base.end) + "]" : std::string()) + "-accepted-in-pieces";
-    if (base.end != r.end) return "error-differs" + (with_text ? "[" + exc_key(base.end) + "->" + exc_key(r.end) + "]" : std::string());
+inline std::string exc_type(const std::string& end) {     // "EXC ns::type: message" -> "type"
+    std::string k = exc_key(end);
+    return k.substr(0, k.find(':'));
+}
+
+// what differs between the unsplit baseline and a split run, as a class-key fragment; with_types adds the
+// exception types (the texts depend on the individual input and stay in the detail)
+inline std::string diff_kind(const Result& base, const Result& r, bool with_types = true) {
+    if (base.ok() && !r.ok()) return "accepted-whole-rejected-in-pieces" + (with_types ? "[" + exc_type(r.end) + "]" : std::string());
+    if (!base.ok() && r.ok()) return "rejected-whole" + (with_types ? "[" + exc_type(base.end) + "]" : std::string()) + "-accepted-in-pieces";
+    if (base.end != r.end) return "error-differs" + (with_types ? "[" + exc_type(base.end) + "->" + exc_type(r.end) + "]" : std::string());
     if (base.objs.size() != r.objs.size()) return std::string(base.ok() ? "" : "before-error-") + "object-count-differs";
     if (base.objs != r.objs) return std::string(base.ok() ? "" : "before-error-") + "objects-differ";
     if (base.header != r.header) return "header-differs";
     return "same";
 }
 
-// Class key of a difference. Normally <fmt>/<what differs, with the exception texts>/<input class>/<where>: where =
+// Class key of a difference. Normally <fmt>/<what differs, with the exception types>/<input class>/<where>: where =
 // the structural position of the smallest failing cut, or the kind of real file. o5m inputs in which the end of
 // the file comes less than 10 bytes after some data set's type byte are one class of their own whatever the cut
 // position and the wording of the error: there the parser's refill (ensure_bytes_available(max_varint_length)) runs
